@@ -117,6 +117,7 @@ structure SEntry where
   verdict : Option BErr := none
   panicked : Bool := false          -- a panic was raised in its `Entry`
   blockPanic : Bool := false        -- … after a rule slot had blocked (the context stays marked blocked)
+  note : CtxNote := {}              -- what `ctx.Err()` / `ctx.GetPair` answer while the entry is admitted and not exited
 deriving Repr, Inhabited
 
 structure SState where
@@ -173,7 +174,8 @@ def sstep (s : SState) : Op → SState × Out
       | none =>
         ({ s with lastLog := specEntryLog ch,
                   entries := s.entries ++ [{ name := e, chain := n, hooks := specHooks ch,
-                                             panicked := entryPanics ch, blockPanic := blockPanics ch }] }, .pass)
+                                             panicked := entryPanics ch, blockPanic := blockPanics ch,
+                                             note := entryNote ch }] }, .pass)
     | _, _ => (s, .bad)
   | .whenexit e id b =>
     match s.findEntry e with
@@ -206,5 +208,12 @@ def sstep (s : SState) : Op → SState × Out
       | none => (s, .bad)
     | none => (s, .bad)
   | .globalorder => (s, defaultOrderSpec)
+  | .ctxq e pair =>
+    match s.findEntry e with
+    | some r =>
+      -- once blocked or exited the context is back in the pool and may already serve another entry: no claim
+      if r.verdict.isSome || r.exited then (s, .unknown)
+      else (s, if pair then .cpair r.note.pair else .cerr r.note.err)
+    | none => (s, .bad)
 
 end Sentinel.Chain
